@@ -139,6 +139,7 @@ type TNC struct {
 	Accepted  [][]byte // data payloads taken into the TX buffer, in order
 	HostAcks  int      // RDY / CRCFAULT received from the host
 	lastFault map[string]*CrcFaultRec
+	rxEnded   map[string]bool
 }
 
 // New creates a model inside the current bubble.
@@ -147,7 +148,7 @@ func New(sim *core.Sim, mode string, p Plan) *TNC {
 		mode = "serial"
 	}
 	t := &TNC{sim: sim, plan: p, mode: mode, streams: map[string]*outStream{}, framers: map[string]*framer{},
-		flags: map[string]string{}, lastFault: map[string]*CrcFaultRec{}}
+		flags: map[string]string{}, lastFault: map[string]*CrcFaultRec{}, rxEnded: map[string]bool{}}
 	t.state = "DISC"
 	t.codec = true
 	if strings.EqualFold(p.InitState, "OFFLINE") {
@@ -211,6 +212,9 @@ func (t *TNC) readLoop(stream string, end *pipe.End) {
 			t.mu.Unlock()
 		}
 		if err != nil {
+			t.mu.Lock()
+			t.rxEnded[stream] = true
+			t.mu.Unlock()
 			t.sim.Logf("tnc %s read ends: %v", stream, err)
 			return
 		}
@@ -235,7 +239,8 @@ func (t *TNC) CloseStream(stream string) {
 }
 
 // PartialFrame reports whether some host->TNC stream ended inside a frame.
-func (t *TNC) PartialFrame() (stream string, partial bool) {
+// hostClosed: the stream had been closed by the host when it ended there.
+func (t *TNC) PartialFrame() (stream string, partial, hostClosed bool) {
 	t.mu.Lock()
 	defer t.mu.Unlock()
 	for _, k := range core.SortedKeys(t.framers) {
@@ -244,10 +249,10 @@ func (t *TNC) PartialFrame() (stream string, partial bool) {
 			if len(head) > 24 {
 				head = head[:24]
 			}
-			return fmt.Sprintf("%s (%d bytes so far, beginning %q)", k, len(fr.raw), head), true
+			return fmt.Sprintf("%s (%d bytes so far, beginning %q)", k, len(fr.raw), head), true, t.rxEnded[k]
 		}
 	}
-	return "", false
+	return "", false, false
 }
 
 // ---------------------------------------------------------------- output
